@@ -1,7 +1,7 @@
 (* C17, scanner half for template bodies: per-command lemmas and the composition over a body.
-   [lb17_okc] / [lb17_okb]: the commands / bodies covered: raw text without "/", print commands, {debugger}, {log},
-   {let} (both forms), {if}/{elseif}/{else}, {for}/{ifempty} (list expression under [lb17_anylast]), {switch} with
-   {case v,...} (no default case), {css}, {call} with data="all" / data="e" / content parameters.
+   [lb17_okc] / [lb17_okb]: the commands / bodies covered: raw text without comment opener ([lb17_one_piece]), print commands, {debugger}, {log},
+   {let} (both forms), {if}/{elseif}/{else}, {for}/{ifempty} (list expression whose text does not start with "-"), {switch} with
+   {case v,...} (no default case), {css}, {call} with data="all" / data="e" / both parameter forms / none.
    [lb17_ok_runs]: the composition, by induction on the derivation of the class.
    [lb17_lex_body]: lex(String(body)) sends the items of [body_toks] (types and texts) followed by EOF; [lb17_lex_template_body]: the same with {/template} behind the body.
    To move these files under coq/Proofs: replace `From SoyLexX Require Import X` by `From Soy Require Import Proofs.X`. *)
@@ -17,7 +17,7 @@ Open Scope Z_scope.
 (* The list expression of {for $x in e} follows the identifier item "in", which ends a term: a "-" there would be
    lexed as the binary minus (lexNegative looks at the last item sent), so [lex_print] (stated for a position where
    an operand may start) does not apply.  [lb17_anylast e]: the printed text of e lexes to its items whatever the
-   last item was; proved below for a plain variable ($xs). *)
+   last item was; proved below for a plain variable ($xs) and for every expression whose text does not start with "-". *)
 Definition lb17_anylast (e : node) : Prop :=
   forall (uni_letter uni_digit : Z -> bool),
   (forall c, (c < 128)%N -> uni_letter (Z.of_N c) = ((65 <=? c) && (c <=? 90) || (97 <=? c) && (c <=? 122))%N) ->
@@ -32,6 +32,22 @@ Proof.
   change (toks (NDataRef p key [])) with [(itemDollarIdent, 36%N :: key)].
   eapply lexes_weaken; [apply (lexes_dollar uni_letter uni_digit Hla Hda Hle Hde inp 0 key Hk)|auto|apply fexp_stops|].
   intros ty <-. reflexivity.
+Qed.
+
+(* every list expression whose printed text does not start with "-" (the lexer family's lex_print_any).  A text that does
+   start with "-" is outside for a reason of the code: {for $x in (-$a)} prints {for $x in -$a}, where lexNegative reads
+   the "-" behind the identifier item "in" as the binary minus and parseFor fails (W4 of notes/astprint-reparse.md) *)
+Lemma lb17_anylast_no_minus e : wf_expr e -> lex_ok e -> (forall se, print_node e = Some se -> no_minus se) -> lb17_anylast e.
+Proof.
+  intros Hwf Hlo Hm ul ud Hla Hda Hle Hde inp se Hp.
+  exact (lex_print_any ul ud Hla Hda Hle Hde inp 0 e Hwf Hlo se Hp (Hm se Hp)).
+Qed.
+
+(* ... which is what wf_body demands of the list expression of a {for} *)
+Lemma lb17_anylast_wf e : wf_expr e -> lex_ok e -> c17_no_lead_minus e -> lb17_anylast e.
+Proof.
+  intros Hwf Hlo Hm. apply lb17_anylast_no_minus; [exact Hwf|exact Hlo|].
+  intros se Hp. unfold c17_no_lead_minus, printed in Hm. rewrite Hp in Hm. exact Hm.
 Qed.
 
 (* the text of a {css} command: ASCII without "}" (lexCss reads runes up to the first "}") *)
@@ -56,21 +72,22 @@ Inductive lb17_okc : node -> Prop :=
 | lb17_ok_letv p name e : alnums name -> wf_expr e -> lex_ok e -> lb17_okc (NLetValue p name e)
 | lb17_ok_letc p name q ns : alnums name -> lb17_okb ns -> lb17_okc (NLetContent p name (NList q ns))
 | lb17_ok_if p conds : lb17_okconds true conds -> lb17_okc (NIf p conds)
-| lb17_ok_for p var lst q ns : alnums var -> wf_expr lst -> lex_ok lst -> lb17_anylast lst -> lb17_okb ns ->
+| lb17_ok_for p var lst q ns : alnums var -> wf_expr lst -> lex_ok lst -> c17_no_lead_minus lst -> lb17_okb ns ->
     lb17_okc (NFor p var lst (NList q ns) None)
-| lb17_ok_for_ie p var lst q ns q2 ns2 : alnums var -> wf_expr lst -> lex_ok lst -> lb17_anylast lst -> lb17_okb ns -> lb17_okb ns2 ->
+| lb17_ok_for_ie p var lst q ns q2 ns2 : alnums var -> wf_expr lst -> lex_ok lst -> c17_no_lead_minus lst -> lb17_okb ns -> lb17_okb ns2 ->
     lb17_okc (NFor p var lst (NList q ns) (Some (NList q2 ns2)))
 | lb17_ok_switch p v cases : wf_expr v -> lex_ok v -> lb17_okcases cases -> lb17_okc (NSwitch p v cases)
 | lb17_ok_css p suffix : lb17_css_ok suffix -> lb17_okc (NCss p None suffix)
 | lb17_ok_css_e p x suffix : wf_expr x -> lb17_css_ok (css_text (Some x) suffix) -> lb17_okc (NCss p (Some x) suffix)
-| lb17_ok_call p name alldata data params : dotted_ok name -> lb17_data_ok alldata data ->
-    (alldata = false -> data = None -> params <> []) -> lb17_okparams params ->
+| lb17_ok_call p name alldata data params : dotted_ok name -> lb17_data_ok alldata data -> lb17_okparams params ->
     lb17_okc (NCall p name alldata data params)
-(* the parameters of a {call}: content parameters ({param k: e/} prints its "/}" directly behind e: not covered) *)
+(* the parameters of a {call}: both forms the printer writes, {param k}..{/param} and {param k: e/} *)
 with lb17_okparams : list node -> Prop :=
 | lb17_ok_params_nil : lb17_okparams []
 | lb17_ok_params_cons q key w ns r : plain_word key -> lb17_okb ns -> lb17_okparams r ->
     lb17_okparams (NParamContent q key (NList w ns) :: r)
+| lb17_ok_params_val q key v r : plain_word key -> wf_expr v -> lex_ok v -> lb17_okparams r ->
+    lb17_okparams (NParamValue q key v :: r)
 (* the cases of a {switch}: each with values (String() prints the default case as "{case }": not covered) *)
 with lb17_okcases : list node -> Prop :=
 | lb17_ok_cases_nil : lb17_okcases []
@@ -84,7 +101,7 @@ with lb17_okconds : bool -> list node -> Prop :=
 | lb17_ok_conds_else q w ns : lb17_okb ns -> lb17_okconds false [NIfCond q None (NList w ns)]
 with lb17_okb : list node -> Prop :=
 | lb17_ok_nil : lb17_okb []
-| lb17_ok_text p t r : LexBodyText.plain t -> Forall (fun c => c <> 47%N) t -> droppable t = false ->
+| lb17_ok_text p t r : LexBodyText.plain t -> lb17_one_piece t -> droppable t = false ->
     lb17_okb r -> match r with NRawText _ _ :: _ => False | _ => True end -> lb17_okb (NRawText p t :: r)
 | lb17_ok_cmd c r : lb17_okc c -> lb17_okb r -> lb17_okb (c :: r).
 
@@ -209,6 +226,9 @@ Lemma lb17_print_param q key w ns :
   print_tree (NParamContent q key (NList w ns)) =
   obind (omap concat_b (opt_all (map print_tree ns))) (fun s => Some (c_cparam ++ key ++ [125%N] ++ s ++ c_cparam_end)).
 Proof. reflexivity. Qed.
+Lemma lb17_print_paramv q key v :
+  print_tree (NParamValue q key v) = obind (print_tree v) (fun s => Some (c_cparam ++ key ++ [58; 32]%N ++ s ++ c_call_self)).
+Proof. reflexivity. Qed.
 Definition lb17_call_toks : list node -> list tok :=
   let body (x : node) : list tok := match x with NList _ ns => concat (map cmd_toks ns) | _ => [] end in
   fix go (l : list node) : list tok :=
@@ -229,6 +249,10 @@ Lemma lb17_call_toks_cons q key w ns r :
   lb17_call_toks (NParamContent q key (NList w ns) :: r) =
   ([tk pit_LeftDelim q [123%N]; kw pit_Param 0; tk pit_Ident 0 key; T_rdelim] ++ concat (map cmd_toks ns) ++ CmdSyntax.close_tag pit_ParamEnd) ++
   lb17_call_toks r.
+Proof. unfold lb17_call_toks. rewrite <- !app_assoc. reflexivity. Qed.
+Lemma lb17_call_toks_cons_val q key v r :
+  lb17_call_toks (NParamValue q key v :: r) =
+  ([tk pit_LeftDelim q [123%N]; kw pit_Param 0; tk pit_Ident 0 key; T_colon] ++ tokens_of v ++ [T_rdelim_end]) ++ lb17_call_toks r.
 Proof. unfold lb17_call_toks. rewrite <- !app_assoc. reflexivity. Qed.
 
 
@@ -254,7 +278,7 @@ Lemma lb17_okc_head c txt : lb17_okc c -> print_tree c = Some txt -> exists r, t
 Proof.
   intros Hok Hp. destruct Hok as [p arg dirs _ _|p|p q ns _|p name e _ Hwf _|p name q ns _ _|p conds Hconds
                                   |p var lst q ns _ _ _ _ _|p var lst q ns q2 ns2 _ _ _ _ _ _|p v cases _ _ _
-                                  |p suffix _|p x suffix _ _|p name alldata data params _ Hdata _ _].
+                                  |p suffix _|p x suffix _ _|p name alldata data params _ Hdata _].
   - change (print_tree (NPrint p arg dirs)) with (print_node (NPrint p arg dirs)) in Hp. cbn [print_node] in Hp.
     destruct (print_node arg); cbn [obind] in Hp; [|discriminate]. destruct (opt_all _); cbn [obind] in Hp; [|discriminate].
     injection Hp as <-. eexists; reflexivity.
@@ -567,6 +591,30 @@ Proof.
   reflexivity.
 Qed.
 
+(* "{param k: e/}" *)
+Lemma lb17_cmd_param_val q key v sv : plain_word key -> wf_expr v -> lex_ok v -> print_node v = Some sv ->
+  lb17_cmd_runs (c_cparam ++ key ++ [58; 32]%N ++ sv ++ c_call_self)
+    ([tk pit_LeftDelim q [123%N]; kw pit_Param 0; tk pit_Ident 0 key; T_colon] ++ tokens_of v ++ [T_rdelim_end]).
+Proof.
+  intros Hkey Hwf Hlo Hp l s Hs. rewrite <- !app_assoc in Hs.
+  destruct (W lb17_go_open l [112; 97; 114; 97; 109]%N itemParam 0%N (32%N :: key ++ 58%N :: 32%N :: sv ++ 47%N :: 125%N :: s) ltac:(lb17_in) Hs ltac:(cbn; split; [lia|reflexivity]))
+    as (l1 & G1 & S1 & D1 & _).
+  destruct (W lb17_go_lexes anyty anys [32%N] [] anyty l1 (key ++ 58%N :: 32%N :: sv ++ 47%N :: 125%N :: s) (W lexes_space 0 anyty) S1 I I) as (l2 & G2 & S2 & D2 & _).
+  destruct (W lb17_go_lexes anyty stops key [tk pit_Ident 0 key] term l2 (58%N :: 32%N :: sv ++ 47%N :: 125%N :: s)
+              (W L_ident 0 key Hkey) S2 I ltac:(cbn; split; [lia|reflexivity])) as (l3 & G3 & S3 & D3 & _).
+  destruct (W lb17_go_lexes anyty anys [58%N] [T_colon] (eq itemColon) l3 (32%N :: sv ++ 47%N :: 125%N :: s)
+              (W lexes_punct 0 58%N itemColon eq_refl) S3 I I) as (l4 & G4 & S4 & D4 & Q4).
+  destruct (W lb17_go_lexes (eq itemColon) anys [32%N] [] (eq itemColon) l4 (sv ++ 47%N :: 125%N :: s)
+              (W lexes_space 0 (eq itemColon)) S4 Q4 I) as (l5 & G5 & S5 & D5 & Q5).
+  destruct (W lb17_go_lexes opnd fexp sv (tokens_of v) term l5 (47%N :: 125%N :: s)
+              (W lex_print 0 v Hwf Hlo sv Hp) S5 ltac:(unfold opnd; rewrite <- Q5; reflexivity) ltac:(cbn; lia)) as (l6 & G6 & S6 & D6 & _).
+  destruct (W lb17_go_rdelim_end l6 s S6 ltac:(congruence)) as (l7 & G7 & S7 & D7).
+  exists l7. split; [|auto].
+  refine (W lb17_go_retok _ _ _ _ _ _ (W lb17_go_trans _ _ _ _ _ _ _ _ G1 (W lb17_go_trans _ _ _ _ _ _ _ _ G2 (W lb17_go_trans _ _ _ _ _ _ _ _ G3
+          (W lb17_go_trans _ _ _ _ _ _ _ _ G4 (W lb17_go_trans _ _ _ _ _ _ _ _ G5 (W lb17_go_trans _ _ _ _ _ _ _ _ G6 G7)))))) _).
+  reflexivity.
+Qed.
+
 (* "{kw e}" *)
 Lemma lb17_cmd_kw_expr name t pp c sc : In (name, t) lb17_open_kws -> ends_term t = false ->
   wf_expr c -> lex_ok c -> print_node c = Some sc ->
@@ -696,7 +744,7 @@ Proof.
     destruct (IH p sc eq_refl l s Hs) as (l1 & G1 & S1).
     destruct (W lb17_go_close l1 [105; 102]%N itemIfEnd s ltac:(lb17_in) S1) as (l2 & G2 & S2 & D2).
     exists l2. split; [|auto]. exact (W lb17_go_trans _ _ _ _ _ _ _ _ G1 G2).
-  - (* for *) intros p var lst q ns Hvar Hwf Hlo Hany _ IHb txt Hp.
+  - (* for *) intros p var lst q ns Hvar Hwf Hlo Hnm _ IHb txt Hp. pose proof (lb17_anylast_wf lst Hwf Hlo Hnm) as Hany.
     rewrite lb17_print_for, (lb17_print_expr lst Hwf), lb17_print_list in Hp.
     destruct (print_node lst) as [sl|] eqn:El; cbn [obind] in Hp; [|discriminate].
     destruct (opt_all (map print_tree ns)) as [txts|] eqn:En; cbn [omap obind] in Hp; [|discriminate]. injection Hp as <-.
@@ -708,7 +756,7 @@ Proof.
         with ([T_ldelim; kw pit_For p; tk pit_DollarIdent 0 (36%N :: var); tk pit_Ident 0 v_in] ++ tokens_of lst ++ [T_rdelim] ++
               concat (map cmd_toks ns) ++ [] ++ CmdSyntax.close_tag pit_ForEnd).
       rewrite <- !app_assoc. reflexivity.
-  - (* for with ifempty *) intros p var lst q ns q2 ns2 Hvar Hwf Hlo Hany _ IHb _ IHb2 txt Hp.
+  - (* for with ifempty *) intros p var lst q ns q2 ns2 Hvar Hwf Hlo Hnm _ IHb _ IHb2 txt Hp. pose proof (lb17_anylast_wf lst Hwf Hlo Hnm) as Hany.
     rewrite lb17_print_for, (lb17_print_expr lst Hwf), !lb17_print_list in Hp.
     destruct (print_node lst) as [sl|] eqn:El; cbn [obind] in Hp; [|discriminate].
     destruct (opt_all (map print_tree ns)) as [txts|] eqn:En; cbn [omap obind] in Hp; [|discriminate].
@@ -748,13 +796,11 @@ Proof.
     assert (E : css_text (Some x) suffix = sx ++ [44; 32]%N ++ suffix) by (unfold css_text, printed; rewrite Ex; reflexivity).
     rewrite E in Hok |- *.
     refine (lb17_runs_eq _ _ _ _ (lb17_cmd_css p _ Hok) _ eq_refl). rewrite <- !app_assoc. reflexivity.
-  - (* call *) intros p name alldata data params Hdot Hdata Hnp Hokp IH txt Hp.
+  - (* call *) intros p name alldata data params Hdot Hdata Hokp IH txt Hp.
     rewrite (lb17_print_call _ _ _ _ _ Hdata) in Hp. rewrite lb17_toks_call. cbv zeta in Hp. intros l s Hs.
     destruct params as [|p0 ps].
     + injection Hp as <-. cbn [app] in Hs. rewrite <- ?app_assoc in Hs. cbn [app] in Hs. rewrite <- ?app_assoc in Hs.
-      assert (Hne : lb17_call_sd alldata data <> []).
-      { unfold lb17_call_sd. destruct alldata; [discriminate|]. destruct data as [d|]; [discriminate|]. exfalso. apply (Hnp eq_refl eq_refl). reflexivity. }
-      destruct (lb17_go_call_head p name alldata data l (c_call_self ++ s) Hdot Hdata Hs ltac:(intros E; congruence)) as (l1 & G1 & S1 & D1).
+      destruct (lb17_go_call_head p name alldata data l (c_call_self ++ s) Hdot Hdata Hs ltac:(intros _; cbn; lia)) as (l1 & G1 & S1 & D1).
       destruct (W lb17_go_rdelim_end l1 s S1 D1) as (l2 & G2 & S2 & D2).
       exists l2. split; [|auto]. pose proof (W lb17_go_trans _ _ _ _ _ _ _ _ G1 G2) as G. rewrite <- !app_assoc in G. exact G.
     + destruct (opt_all (map print_tree (p0 :: ps))) as [txts|] eqn:E; cbn [omap obind] in Hp; [|discriminate]. injection Hp as <-.
@@ -780,6 +826,17 @@ Proof.
     { rewrite <- !app_assoc. exact S1. }
     destruct (IHr tr eq_refl l2 s S2 D2) as (l3 & G3 & S3).
     exists l3. split; [|exact S3]. rewrite lb17_call_toks_cons.
+    exact (W lb17_go_trans _ _ _ _ _ _ _ _ G1 (W lb17_go_trans _ _ _ _ _ _ _ _ G2 G3)).
+  - (* {param k: e/} *) intros q key v r Hkey Hwf Hlo _ IHr txts Hp l s Hs Hdd.
+    cbn [map opt_all] in Hp. rewrite lb17_print_paramv, (lb17_print_expr v Hwf) in Hp.
+    destruct (print_node v) as [sv|] eqn:Ev; cbn [obind] in Hp; [|discriminate].
+    destruct (opt_all (map print_tree r)) as [tr|] eqn:Er; [|discriminate]. injection Hp as <-.
+    cbn [concat_b app] in Hs. rewrite <- ?app_assoc in Hs. cbn [app] in Hs. rewrite <- ?app_assoc in Hs.
+    destruct (W lb17_go_text_tag l _ Hs) as (l1 & G1 & S1 & D1).
+    destruct (lb17_cmd_param_val q key v sv Hkey Hwf Hlo Ev l1 (concat_b tr ++ c_call_end ++ s)) as (l2 & G2 & S2 & D2).
+    { rewrite <- !app_assoc. exact S1. }
+    destruct (IHr tr eq_refl l2 s S2 D2) as (l3 & G3 & S3).
+    exists l3. split; [|exact S3]. rewrite lb17_call_toks_cons_val.
     exact (W lb17_go_trans _ _ _ _ _ _ _ _ G1 (W lb17_go_trans _ _ _ _ _ _ _ _ G2 G3)).
   - (* no more cases *) intros txts Hp l s Hs. injection Hp as <-. exists l. split; [|exact Hs].
     exists 0%nat. split; [reflexivity|apply lb17_sent_nil; reflexivity].
@@ -828,7 +885,7 @@ Proof.
     destruct (lb17_cmd_else (concat_b txts) _ HA l (c_if_end ++ s) Hs ltac:(eexists; reflexivity)) as (l1 & G1 & S1).
     exists l1. split; [|exact S1]. change (lb17_if_toks p false []) with (@nil tok). rewrite app_nil_r. exact G1.
   - (* the empty body *) intros txts Hp. injection Hp as <-. split; [|intros []].
-    intros l tl Hs Hdd Htl. apply (W lb17_fin_text l [] tl); try assumption; try constructor.
+    intros l tl Hs Hdd Htl. apply (W lb17_fin_text l [] tl); try assumption; try exact lb17_one_piece_nil; try constructor.
   - (* raw text first *) intros p t r Hpl Hns Hdr Hokr IHr Hhd txts Hp. split; [|intros []].
     cbn [map opt_all] in Hp. change (print_tree (NRawText p t)) with (Some t) in Hp.
     destruct (opt_all (map print_tree r)) as [tr|] eqn:Er; [|discriminate]. injection Hp as <-.
@@ -915,7 +972,7 @@ Proof.
   assert (S1' : span txt l1 [] ([123; 47]%N ++ [116; 101; 109; 112; 108; 97; 116; 101]%N ++ [125%N] ++ [])) by exact S1.
   destruct (lb17_go_close uni_letter uni_digit Hla Hda Hle Hde txt l1 _ itemTemplateEnd [] ltac:(lb17_in) S1') as (l2 & G2 & S2 & D2).
   assert (S2' : span txt l2 [] ([] ++ [])) by exact S2.
-  pose proof (lb17_fin_text uni_letter uni_digit Hla Hda Hle Hde txt l2 [] [] [] S2' D2 ltac:(constructor) ltac:(constructor)
+  pose proof (lb17_fin_text uni_letter uni_digit Hla Hda Hle Hde txt l2 [] [] [] S2' D2 ltac:(constructor) lb17_one_piece_nil
                 ltac:(left; reflexivity) eq_refl) as F3.
   pose proof (lb17_fin_prefix uni_letter uni_digit Hla Hda Hle Hde txt [] _ _ _ _ _ _
                 (lb17_go_trans uni_letter uni_digit Hla Hda Hle Hde txt _ _ _ _ _ _ _ _ G1 G2) F3) as F.
